@@ -10,5 +10,6 @@ CONSTANTS
   AllowStmt = @@STMT@@
   Emit = @@EMIT@@
   Rich = @@RICH@@
+  Objects = @@OBJECTS@@
 INVARIANTS NeverWidens EmitInv
 PROPERTIES Restored
